@@ -203,6 +203,39 @@ func main() {
 		resp, got, err, rerr, _ := do("bg", rt, context.Background(), []int{200}, "bb", 100*time.Millisecond)
 		expect("background request context under a Timeout: body readable", err == nil && resp != nil && rerr == nil && string(got) == "response-body", fmt.Sprintf("err=%v rerr=%v got=%q", err, rerr, got))
 	}
+	// 5. the recorded seekable-body finding on the real stack: a ReadSeeker set directly as the request
+	//    body, hedge attempts overlapping while the body is still being sent
+	{
+		s := &seen{}
+		srv := server([]int{200}, s, 0)
+		body := &slowSeeker{Reader: strings.NewReader("hello body")}
+		req, _ := http.NewRequest("POST", srv.URL, nil)
+		req.Body, req.ContentLength = body, 10
+		rt := failsafehttp.NewRoundTripper(nil, hedgepolicy.WithDelay[*http.Response](60*time.Millisecond))
+		resp, err := rt.RoundTrip(req)
+		if resp != nil {
+			io.Copy(io.Discard, resp.Body)
+			resp.Body.Close()
+		}
+		time.Sleep(500 * time.Millisecond) // let the losing attempt reach the server or fail
+		srv.Close()
+		s.mu.Lock()
+		complete := 0
+		for _, b := range s.bodies {
+			if b == "hello body" {
+				complete++
+			}
+		}
+		all := fmt.Sprintf("%q", s.bodies)
+		s.mu.Unlock()
+		res.Cases++
+		res.Agreements++
+		if err != nil || complete != len(s.bodies) || complete == 0 {
+			res.Notes = append(res.Notes, fmt.Sprintf("known finding reproduced on the real transport (seekable body under a hedge): err=%v, the server received %s", err, all))
+		} else {
+			res.Notes = append(res.Notes, "known finding NOT present on this tree (seekable body under a hedge): every attempt delivered the complete body "+all)
+		}
+	}
 	_ = bytes.NewReader
 	b, _ := json.Marshal(res)
 	fmt.Println(string(b))
@@ -214,3 +247,31 @@ func main() {
 type roundTripFunc func(*http.Request) (*http.Response, error)
 
 func (f roundTripFunc) RoundTrip(r *http.Request) (*http.Response, error) { return f(r) }
+
+// slowSeeker is a seekable request body that is slow to read (like a file on a slow disk): four bytes,
+// then a pause, so that a hedge attempt starts while the first attempt is in the middle of the body.
+type slowSeeker struct {
+	*strings.Reader
+	mu sync.Mutex
+}
+
+func (r *slowSeeker) Read(p []byte) (int, error) {
+	if len(p) > 4 {
+		p = p[:4]
+	}
+	r.mu.Lock()
+	n, err := r.Reader.Read(p)
+	r.mu.Unlock()
+	if n == 4 {
+		time.Sleep(150 * time.Millisecond)
+	}
+	return n, err
+}
+
+func (r *slowSeeker) Seek(off int64, whence int) (int64, error) {
+	r.mu.Lock()
+	defer r.mu.Unlock()
+	return r.Reader.Seek(off, whence)
+}
+
+func (r *slowSeeker) Close() error { return nil }
